@@ -190,3 +190,10 @@ UNITS = [
          notes='pivoted LU reconstructs the input: with L the unit lower triangle and U the upper triangle of the returned array and P the returned permutation, '
                '(L U)[i,c] = A[p_i, c] for every entry, through the residual / row-swap / scaling phases of every column (zero pivots included)'),
 ]
+
+# contract-only view of `lu` for callers: the union of what the two units prove about it
+lu_full = Fn(LUP + 'lu', ret='r', level='L1', valid=c01.LUV, requires=['C11.machine:: matrix@.len() <= 0x7fff_ffff'],
+             ensures=['C11.lu.valid:: ' + c01.LUV, 'C11.lu.shape:: r.0@.len() == matrix@.len()',
+                      'C11.lu.permutation:: forall|n: int| 0 <= n && n * n == matrix@.len() ==> is_perm32(r.1@, n)',
+                      'C11.lu.l_bounded:: forall|n: int| 0 <= n && n * n == matrix@.len() ==> bounded(r.0@, n, n)',
+                      'C11.lu.reconstruct:: forall|n: int| 0 <= n && n * n == matrix@.len() ==> r.0@.len() == n * n && #[trigger] factored(matrix@, r.0@, r.1@, n, n)'])
